@@ -26,7 +26,7 @@ from gvsim.sim import Raised, Sim, sut
 
 PROP = 'C02'
 TIERS = {'quick': {'runs': 1200, 'wall': 120, 'chunk': 20}, 'thorough': {'runs': 30000, 'wall': 1500, 'chunk': 25}}
-REACH = ['reseed_gv', 'np_draw', 'py_seed', 'debug_flip', 'cache_pressure', 'restart_fresh_interpreter', 'twin_pair', 'reseeded_vs_fresh', 'stochastic_draw']  # probes / faults that must fire in every batch (reach gaps are reported in the evidence)
+REACH = ['reseed_gv', 'np_draw', 'py_seed', 'debug_flip', 'cache_pressure', 'restart_fresh_interpreter', 'twin_pair', 'reseeded_vs_fresh', 'stochastic_draw', 'numeric_representation_in_history']  # probes / faults that must fire in every batch (reach gaps are reported in the evidence)
 RULE = ('interleave runs: 2-4 live environments (all shipped configurations, coin_env, random compositions containing '
         'every stochastic component and every random reset; twins with equal configuration, seed and actions) whose '
         'operations a seeded scheduler interleaves with an adversary that reseeds / draws from / clears every '
